@@ -255,7 +255,7 @@ def execute(case):
                     obj = load_bytes(files.fixture_bytes(names[op.get("t", 0) % len(names)]))
                     how = "loadfile"
                 snap, b = obj_digest(obj)
-                actors.append({"obj": obj, "how": how, "snap": snap, "bytes": b, "writer": None})
+                actors.append({"obj": obj, "how": how, "snap": snap, "bytes": b, "writer": None, "mut": 0})
                 check_others(len(actors) - 1, i, "obtain:" + how)
                 log.append((i, "obtain", how, type_of(obj), b))
                 continue
@@ -264,6 +264,7 @@ def execute(case):
             ai = op.get("a", 0) % len(actors)
             a = actors[ai]
             if k == "mutate":
+                a["mut"] += 1  # any mutation attempt while a writer is suspended disqualifies its comparison
                 acting_idx = None
                 if isinstance(a["obj"], Project) and op.get("bop", {}).get("k") == "set":
                     ms_ = [m for m in a["obj"].modules if m is not None]
@@ -312,7 +313,7 @@ def execute(case):
                 if not isinstance(obj, (Project, Synth)):
                     continue
                 if a["writer"] is None:
-                    a["writer"] = [obj.chunks(), simio.SimFile(Ctx(()), 0, b"", "arg", "w"), a["bytes"]]
+                    a["writer"] = [obj.chunks(), simio.SimFile(Ctx(()), 0, b"", "arg", "w"), (a["bytes"], a["mut"])]
                     fired["writer_started"] = fired.get("writer_started", 0) + 1
                 gen, out, at_start = a["writer"]
                 for _ in range(1 + op.get("n", 0) % 40):
@@ -324,7 +325,7 @@ def execute(case):
                         fired["writer_finished"] = fired.get("writer_finished", 0) + 1
                         # the object may have been mutated by its own actor meanwhile: only
                         # compare when it was not
-                        if at_start == a["bytes"]:
+                        if at_start == (a["bytes"], a["mut"]):
                             if seeds.digest(out.getvalue()) != a["bytes"]:
                                 violations.append(_v("suspended_writer_equals_plain", type=type_of(obj), detail={"op": i}))
                         break
@@ -393,7 +394,7 @@ def execute(case):
             for ch in gen:
                 write_chunk(out, *ch)
             fired["writer_finished"] = fired.get("writer_finished", 0) + 1
-            if at_start == a["bytes"] and seeds.digest(out.getvalue()) != a["bytes"]:
+            if at_start == (a["bytes"], a["mut"]) and seeds.digest(out.getvalue()) != a["bytes"]:
                 violations.append(_v("suspended_writer_equals_plain", type=type_of(a["obj"]), detail={"op": "end"}))
         except (KeyboardInterrupt, HarnessTimeout):
             raise
